@@ -83,8 +83,8 @@ func main() {
 		}
 		return key, what, inc
 	}
-	worker.Run(r, worker.Opts{Phase: "small", Total: r.N(40, 900), Batch: r.N(3, 15), Timeout: 5 * time.Minute, Env: envv, OnDeath: death, OnResult: tally})
-	worker.Run(r, worker.Opts{Phase: "hist", Total: r.N(400, 8000), Batch: r.N(25, 100), Timeout: 5 * time.Minute, Env: envv, OnDeath: death, OnResult: tally})
+	worker.Run(r, worker.Opts{Phase: "small", Total: r.N(40, 900), Batch: r.N(3, 15), Timeout: 15 * time.Minute, Env: envv, OnDeath: death, OnResult: tally})
+	worker.Run(r, worker.Opts{Phase: "hist", Total: r.N(400, 8000), Batch: r.N(25, 100), Timeout: 15 * time.Minute, Env: envv, OnDeath: death, OnResult: tally})
 	os.RemoveAll(base)
 
 	// a run that never reached the termination hook or never produced the
@@ -117,7 +117,7 @@ func onDeath(d worker.Death) (string, string, bool) {
 		if len(line) > 1500 {
 			line = line[:1500]
 		}
-		return "gc-nontermination", fmt.Sprintf("case %d: GC walked the subject chain of one manifest for more steps than there are manifests in the store (a Merkle subject chain cannot be that long): %s", d.Case, line), false
+		return "gc-nontermination", fmt.Sprintf("case %d: GC walked the subject chain of one manifest more often than (manifests+1)² times (a Merkle subject chain has at most #manifests links and the referrer pass at most #manifests+1 rounds): %s", d.Case, line), false
 	}
 	if i := strings.Index(d.Stderr, cpuMarker); i >= 0 {
 		line := d.Stderr[i:]
@@ -256,11 +256,7 @@ func augment(g *gen.DAG, rng *rand.Rand) {
 		configs = blobs
 	}
 	add := func(kind gen.Kind, mt string, body any, succ []int, subject int) int {
-		b, _ := json.Marshal(body)
-		nd := &gen.Node{ID: len(g.Nodes), Kind: kind, Bytes: b, Succ: succ, Subject: subject,
-			Desc: ocispec.Descriptor{MediaType: mt, Digest: digest.FromBytes(b), Size: int64(len(b))}}
-		g.Nodes = append(g.Nodes, nd)
-		return nd.ID
+		return addNode(g, kind, mt, body, succ, subject)
 	}
 	salt := func() map[string]string { return map[string]string{"org.test.salt": fmt.Sprintf("%x", rng.Uint64())} }
 	desc := func(id int) ocispec.Descriptor { return g.Nodes[id].Desc }
@@ -275,6 +271,14 @@ func augment(g *gen.DAG, rng *rand.Rand) {
 	sm := desc(m)
 	add(gen.Manifest, gen.MTOCIManifest, ocispec.Manifest{Versioned: specs.Versioned{SchemaVersion: 2}, MediaType: gen.MTOCIManifest,
 		Config: desc(cfg), Layers: []ocispec.Descriptor{}, Subject: &sm, Annotations: salt()}, []int{m, cfg}, m)
+}
+
+func addNode(g *gen.DAG, kind gen.Kind, mt string, body any, succ []int, subject int) int {
+	b, _ := json.Marshal(body)
+	nd := &gen.Node{ID: len(g.Nodes), Kind: kind, Bytes: b, Succ: succ, Subject: subject,
+		Desc: ocispec.Descriptor{MediaType: mt, Digest: digest.FromBytes(b), Size: int64(len(b))}}
+	g.Nodes = append(g.Nodes, nd)
+	return nd.ID
 }
 
 var strayPaths = []string{
@@ -396,6 +400,21 @@ func runHist(i int, rng *rand.Rand, res *worker.Result) {
 	}
 	steps := 6 + rng.IntN(20)
 	for s := 0; s < steps && !e.stop; s++ {
+		e.randomOp(rng, do)
+	}
+	res.Key = g.Shape(g.Roots()...) + "|" + opsString(e.ops)
+	res.NT = e.nt
+	res.Count("history_operations", int64(len(e.ops)))
+	res.MaxOf("max_store_nodes", int64(len(g.Nodes)))
+	res.Observe("push_order_classes", class)
+	if i%61 == 0 {
+		res.Sample = map[string]any{"phase": "hist", "dag": describe(g), "ops": opsString(e.ops)}
+	}
+}
+
+// randomOp draws and executes one random operation of the history vocabulary.
+func (e *env) randomOp(rng *rand.Rand, do func(op)) {
+	{
 		switch x := rng.IntN(100); {
 		case x < 20:
 			if o, ok := e.tagOp(rng); ok {
@@ -423,14 +442,6 @@ func runHist(i int, rng *rand.Rand, res *worker.Result) {
 		default:
 			do(op{Op: "stray", Path: pickStray(rng)})
 		}
-	}
-	res.Key = g.Shape(g.Roots()...) + "|" + opsString(e.ops)
-	res.NT = e.nt
-	res.Count("history_operations", int64(len(e.ops)))
-	res.MaxOf("max_store_nodes", int64(len(g.Nodes)))
-	res.Observe("push_order_classes", class)
-	if i%61 == 0 {
-		res.Sample = map[string]any{"phase": "hist", "dag": describe(g), "ops": opsString(e.ops)}
 	}
 }
 
